@@ -302,6 +302,25 @@ def lexer_facts(grammar_mod):
     }
 
 
+class _ProbeSlot:
+    def __init__(self, i):
+        self.value = i
+
+
+def _name_index(pr):
+    """attribute name -> slot index, as SLY's own accessor functions compute it"""
+    out = {}
+    probe = [_ProbeSlot(i) for i in range(len(pr.prod))]
+    for k, fn in (getattr(pr, "namemap", None) or {}).items():
+        try:
+            v = fn(probe)
+            if isinstance(v, int):
+                out[k] = v
+        except Exception:
+            pass
+    return out
+
+
 def parser_facts(grammar_mod):
     P = grammar_mod.ODataParser
     g = P._grammar
@@ -313,6 +332,7 @@ def parser_facts(grammar_mod):
             "prec": list(pr.prec) if pr.prec else None,
             "line": pr.line, "func": ff,
             "namemap": sorted(pr.namemap.keys()) if getattr(pr, "namemap", None) else [],
+            "name_index": _name_index(pr),
         })
     t = P._lrtable
     action = {str(s): {tok: act for tok, act in row.items()} for s, row in t.lr_action.items()}
